@@ -900,6 +900,15 @@ func (e *Env) callExpr(ex *ast.CallExpr) (SVal, error) {
 		r.Len = plus(sv.Len, "1")
 		r.Loc = "spec:" + r.Loc
 		return r, nil
+	case "atiter":
+		// atiter(x): the cell x as it was when the current loop iteration started
+		if id, ok := ex.Args[0].(*ast.Ident); ok && len(ex.Args) == 1 {
+			if v, ok := e.St.NamedV["atiter:"+id.Name]; ok {
+				return v, nil
+			}
+			return SVal{}, fmt.Errorf("atiter(%s): no such cell at the start of the iteration", id.Name)
+		}
+		return SVal{}, fmt.Errorf("atiter(cell)")
 	case "deref":
 		// deref(p): the value a pointer held by a cell points to (the executor's model of *p)
 		if len(ex.Args) != 1 {
